@@ -946,3 +946,42 @@ def functional_contracts():
                              'forall(range(0, len(out)), lambda k: '
                              'pulls[k] == k)'])])
     return cs
+
+
+def setup_dicts(world):
+    setup_mem(world)
+    world.symbolic_dicts = True
+
+
+def dict_builder_contracts():
+    """toDict / dict(items): the keys are exactly the selected keys, and the
+    LAST element carrying a key provides its value."""
+    cs = []
+    IT = TIter(TVal)
+
+    def c(fname, **kw):
+        kw.setdefault('serves', ('C13',))
+        kw.setdefault('native', False)
+        x = Contract(C + fname, **kw)
+        cs.append(x)
+        return x
+    for vsel in (True, False):
+        K = 'key_selector(%s)'
+        V = 'value_selector(%s)' if vsel else '%s'
+        keys = ('forall(Val, lambda k: (k in result) == exists(range(0, %%s), '
+                'lambda j: %s == k))' % (K % (S_ + '[j]')))
+        last = ('forall(range(0, %%s), lambda j: implies(not exists(range(j + '
+                '1, %%s), lambda i: %s == %s), result[%s] == %s))' % (
+                    K % (S_ + '[i]'), K % (S_ + '[j]'), K % (S_ + '[j]'),
+                    V % (S_ + '[j]')))
+        L = 'len(%s)' % S_
+        c('to_dict', name='collections.to_dict/%s' % (
+            'value-selector' if vsel else 'identity'),
+          params=dict(collection=IT, engine=TVal, key_selector=TFunc(1),
+                      value_selector=TFunc(1) if vsel else None),
+          track_pulls='collection',
+          ensures=[keys % L, last % (L, L)],
+          loops=[dict(anchor='for t in collection', index='n',
+                      invariant=['SRC.pos == n', keys % 'n',
+                                 last % ('n', 'n')])])
+    return cs
